@@ -328,6 +328,7 @@ func (g *G) stmt(sc *scopeInfo) {
 		w(sc.canRet, 1),                             // 15 return
 		w(o.Dump, 1),                                // 16 dump
 		w(o.TargetTry && !g.targetPlaced && sc.inTry == 0 && !sc.canRet && sc.depth > 0, 3), // 17 the instrumented try
+		w(o.Callbacks && !o.TargetTry, 1), // 18 a function that declares a template-global through the Runtime API
 	)
 	switch k {
 	case 0:
@@ -422,6 +423,12 @@ func (g *G) stmt(sc *scopeInfo) {
 		g.act("dump(9)")
 	case 17:
 		g.targetTry(*sc)
+	case 18:
+		g.nVar++
+		name := fmt.Sprintf("zq%d", g.nVar)
+		g.W.VarNames = append(g.W.VarNames, name)
+		g.act(fmt.Sprintf("letg(%q, %s)", name, g.strExpr(*sc, 1)))
+		g.act("isset(" + name + ")")
 	}
 }
 
@@ -600,6 +607,14 @@ func (g *G) yieldStmt(sc scopeInfo) {
 		}
 		first = false
 		s += bi.Params[i] + "=" + g.strExpr(sc, 1)
+	}
+	if g.O.Builtins && g.T.Choose(6) == 5 {
+		// an argument without a name (legal: it is evaluated and bound to no parameter); it must not
+		// start with an identifier, which would read as a parameter name
+		if !first {
+			s += ", "
+		}
+		s += `"u" + ` + g.strExpr(sc, 1)
 	}
 	s += ")"
 	if bi.Ctx != KAny || g.T.Choose(3) == 2 {
